@@ -395,6 +395,7 @@ Definition update_tours (vehicles : list (vehicle_id * Z)) tours forms usage dum
   Ok (vehicles1, tours2, forms2, usage2, dummies2, ids1, dids1, uns2, costs2).
 
 Definition override_reassign (seg : node_id * node_id) (p r : vehicle_id) : res (schedule * option vehicle_id) :=
+  if vid_eqb p r then Err else   (* since the repair "fix: override_reassign refuses provider == receiver" *)
   do ok <- check_receiver_type_compatibility p r seg;
   if negb ok then Err else
   do tp <- (match tour_of p with Ok t => Ok t | _ => Panic end);
